@@ -216,7 +216,8 @@ func c16r1(c *Ctx) {
 
 func c16r2(c *Ctx) {
 	// renter-side funders: package rhp functions (not Server methods) calling an interface method FundV2Transaction
-	for _, f := range c.P.PkgFuncs("rhp") {
+	// (helpers and local closures such as an `abort(err)` that releases and returns are expanded)
+	for _, f := range c.P.Views("rhp", ir.ExpandOpt{Key: "all"}).Roots {
 		if rn := recvNamed(f.Obj); rn != nil && rn.Obj().Name() == "Server" {
 			continue
 		}
